@@ -219,7 +219,7 @@ fn scaled(number: &str, multiplier: u128) -> Option<f64> {
     let (whole, fraction) = digits.split_once('.').unwrap_or((digits, ""));
     let plain = !(whole.is_empty() && fraction.is_empty())
         && whole.len() + fraction.len() <= 24
-        && fraction.len() <= 18
+        && fraction.len() <= 24
         && whole.chars().chain(fraction.chars()).all(|c| c.is_ascii_digit());
     if !plain {
         // an exponent and the like: the floating-point product
@@ -229,7 +229,17 @@ fn scaled(number: &str, multiplier: u128) -> Option<f64> {
     let mantissa = format!("{}{}", whole, fraction).parse::<u128>().ok()?;
     let divisor = 10u128.pow(fraction.len() as u32);
     let product = mantissa.checked_mul(multiplier)?;
-    let bytes = (product / divisor) as f64 + (product % divisor) as f64 / divisor as f64;
+    let whole = (product / divisor) as f64;
+    let mut bytes = whole + (product % divisor) as f64 / divisor as f64;
+    if product % divisor != 0 {
+        // a fraction of a byte may be smaller than the spacing of floating-point numbers at this size
+        // (9.03107t is 9929766476259.00032 bytes): the value stays strictly between the two whole numbers
+        if bytes <= whole {
+            bytes = f64::from_bits(whole.to_bits() + 1);
+        } else if bytes >= whole + 1.0 {
+            bytes = f64::from_bits((whole + 1.0).to_bits() - 1);
+        }
+    }
 
     Some(if negative { -bytes } else { bytes })
 }
